@@ -13,11 +13,12 @@ import Pyx12Verif.Drv.C20
 import Pyx12Verif.Drv.C10
 import Pyx12Verif.Drv.C11
 import Pyx12Verif.Drv.C09
+import Pyx12Verif.Drv.C07
 
 open Pyx12Verif
 
 def handlers : List (List (List Char) → Option String) :=
-  [Drv.C13.handle, Drv.C14.handle, Drv.C15.handle, Drv.C17.handle, Drv.C19.handle, Drv.C04.handle, Drv.C01.handle, Drv.C08.handle, Drv.C05.handle, Drv.C20.handle, Drv.C10.handle, Drv.C11.handle, Drv.C09.handle]
+  [Drv.C13.handle, Drv.C14.handle, Drv.C15.handle, Drv.C17.handle, Drv.C19.handle, Drv.C04.handle, Drv.C01.handle, Drv.C08.handle, Drv.C05.handle, Drv.C20.handle, Drv.C10.handle, Drv.C11.handle, Drv.C09.handle, Drv.C07.handle]
 
 partial def loop (hin hout : IO.FS.Stream) (st : Drv.Walk.DState) : IO Unit := do
   let line ← hin.getLine
